@@ -102,7 +102,45 @@ func (c04) Plan(tier string, seed int64) []mon.Workload {
 		{Name: "slice-cube", N: nobj * 2 * nb * nb * (nb + 1), Exhaustive: true},
 		{Name: "paths", N: (nk + nk*nk + nk*nk*nk) * 4, Exhaustive: true},
 		{Name: "alias-programs", N: progs},
+		{Name: "self-insertion", N: int64(len(c04SelfSetups) * len(c04SelfWrites)), Exhaustive: true},
 	}
+}
+
+// self-insertion: a container stored into itself (or into one of its own
+// elements) is the SAME container, not a copy: a write through the inner
+// alias shows through the outer name and the other way round. Only scalars
+// are printed (the containers are cyclic).
+var c04SelfSetups = []string{
+	"a = [1, 2]\na[0] = a\nw = a[0]\n",
+	"a = [1, 2]\na[-2] = a\nw = a[0][0][0]\n",
+	"a = {\"x\": 1, \"y\": 2}\na[\"self\"] = a\nw = a[\"self\"]\n",
+	"a = [[0, 1], 7]\na[0][0] = a\nw = a[0][0]\n",
+	"a = [[1, 2], 3]\na[0][1] = a[0]\nw = a[0][1]\na = a[0]\n",
+	"a = [1, 2]\nb = a\na[0] = b\nw = b[0]\n",
+	"a = {\"l\": [0, 0]}\na[\"l\"][1] = a\nw = a[\"l\"][1]\n",
+	"a = [0, 0]\nm = {\"l\": a}\na[1] = m\nw = m[\"l\"][1][\"l\"]\n",
+	"a = [5, 6]\nfor i = 0; i < 2; i = i + 1 {\n  a[0] = a\n}\nw = a[0][0]\n",
+}
+var c04SelfWrites = []string{
+	"w[1] = 9\np(a[1], len(a), len(w))\n",
+	"a[1] = 8\np(w[1], len(a), len(w))\n",
+	"w[-1] = \"v\"\na[-1] = a[-1] + \"!\"\np(w[-1], a[-1])\n",
+	"w[1] += 4\nw[1] *= 2\np(a[1])\n",
+	"w[\"x\"] = 5\na[\"y\"] = 6\np(a[\"x\"], w[\"y\"], len(a))\n",
+	"p(w[1] == a[1], w[1])\nw[1] = nil\np(a[1])\n",
+}
+
+func c04SelfCase(i int64) c04Case {
+	text := c04SelfSetups[int(i)%len(c04SelfSetups)] + c04SelfWrites[int(i)/len(c04SelfSetups)]
+	o := drive.Parse("self-insertion", text)
+	if o.Err != nil {
+		panic("c04: self-insertion program does not parse: " + text + ": " + o.Err.Error())
+	}
+	l, err := gt.FromStmts(o.Stmts)
+	if err != nil {
+		panic(err)
+	}
+	return c04Case{Stmts: gt.CloneStmts(l), Nontrivial: true}
 }
 
 type c04Case struct {
@@ -113,6 +151,8 @@ type c04Case struct {
 
 func (c04) build(c *mon.Ctx, workload string, i int64) c04Case {
 	switch workload {
+	case "self-insertion":
+		return c04SelfCase(i)
 	case "slice-cube":
 		bounds := c04Bounds(c.Tier)
 		nb := int64(len(bounds))
@@ -302,7 +342,7 @@ func (k c04) Run(c *mon.Ctx, workload string, i int64) {
 		c.Violate(r.Class+":"+workload, fmt.Sprintf("%s\n--- program\n%s", r.Detail, src), info)
 		return
 	}
-	if workload == "alias-programs" && mo.Unspecified == "" && !mo.Shared.MapOrderDependent {
+	if (workload == "alias-programs" || workload == "self-insertion") && mo.Unspecified == "" && !mo.Shared.MapOrderDependent {
 		// values built by one run (literals, containers) must not leak into
 		// the next run of the same loaded script
 		real2 := drive.PointFromModel(mp)
